@@ -34,7 +34,8 @@ Inductive leaf := KText (s : bytes) | KDivider | KSpacer | KImage | KImageLink |
                 | KCarousel (thumbnails : bool) (more : nat).                 (* 1 + more images *)
 Definition column := (bool * list leaf)%type.          (* true = the column has padding: its rows sit in a gutter table *)
 Inductive item := CI (cl : column) | RI (ts : list tok).   (* what a section or group holds: columns and mj-raw *)
-Inductive section := Cols (l : list item) | Groups (gs : list (list item)).
+Inductive mitem := MC (cl : column) | MR (ts : list tok) | MG (g : list item).   (* a section holding columns AND groups *)
+Inductive section := Cols (l : list item) | Groups (gs : list (list item)) | Mixed (l : list mitem).
 Definition sect := (bool * section)%type.               (* true = background-url: the section is wrapped in a VML rectangle for Outlook *)
 Inductive witem := WS (s : sect) | WR (ts : list tok).     (* what a wrapper holds: sections and mj-raw *)
 Inductive block := Plain (s : sect) | FullWidth (s : sect) | Wrap (ws : list witem) | FullWrap (ws : list witem) | Hero (ks : list leaf) | Raw (ts : list tok).
@@ -139,11 +140,21 @@ Definition group_inner (l : list item) : list seg :=
   if has_col l then items_segs false (fst (split_trail l)) ++ raws_only (snd (split_trail l)) else raws_only l.
 Definition group_segs (l : list item) : list seg :=
   M [o "table"; o "tr"; o "td"] :: P [o "div"] :: group_inner l ++ [P [c "div"]; M [c "td"; c "tr"; c "table"]].
+(* columns and groups side by side: the columns share one Outlook table row as before; every group brings its own table, which -
+   when a column's cell is open - simply sits inside that cell *)
+Fixpoint mitems_segs (opened : bool) (l : list mitem) : list seg :=
+  match l with
+  | [] => if opened then [M [c "td"; c "tr"; c "table"]] else []
+  | MR ts :: r => raw_seg ts :: mitems_segs opened r
+  | MC cl :: r => (if opened then M [c "td"; o "td"] else M [o "table"; o "tr"; o "td"]) :: col_segs cl ++ mitems_segs true r
+  | MG g :: r => group_segs g ++ mitems_segs opened r
+  end.
 Definition children_segs (s : section) : list seg :=
   match s with
   | Cols l => cols_segs l
   | Groups [] => cols_segs []
   | Groups gs => flat_map group_segs gs
+  | Mixed l => mitems_segs false l
   end.
 Definition sec_segs (s : section) : list seg :=
   P [o "div"; o "table"; o "tbody"; o "tr"; o "td"] :: children_segs s ++ [P [c "td"; c "tr"; c "tbody"; c "table"; c "div"]].
@@ -326,9 +337,17 @@ Lemma group_inner_plain l : forallb seg_plain (group_inner l) = true.
 Proof. unfold group_inner. destruct (has_col l); [rewrite forallb_app, items_plain, raws_only_plain|rewrite raws_only_plain]; reflexivity. Qed.
 Lemma group_plain l : forallb seg_plain (group_segs l) = true.
 Proof. unfold group_segs. cbn [forallb]. rewrite forallb_app, group_inner_plain. reflexivity. Qed.
+Lemma mitems_plain : forall l opened, forallb seg_plain (mitems_segs opened l) = true.
+Proof.
+  induction l as [|i r IH]; intros opened; [destruct opened; reflexivity|].
+  destruct i as [cl|ts|g]; cbn [mitems_segs forallb].
+  - rewrite forallb_app, col_plain, IH. destruct opened; reflexivity.
+  - now rewrite raw_seg_plain, IH.
+  - now rewrite forallb_app, group_plain, IH.
+Qed.
 Lemma children_plain s : forallb seg_plain (children_segs s) = true.
 Proof.
-  destruct s as [cs|gs]; cbn [children_segs]; [apply cols_plain|]. destruct gs as [|g gs]; [reflexivity|].
+  destruct s as [cs|gs|ms]; cbn [children_segs]; [apply cols_plain| |apply mitems_plain]. destruct gs as [|g gs]; [reflexivity|].
   apply forallb_flat_map. apply group_plain.
 Qed.
 Lemma sec_plain s : forallb seg_plain (sec_segs s) = true.
@@ -630,10 +649,31 @@ Proof.
     change (events Mso [P [c "div"]; M [c "td"; c "tr"; c "table"]]) with [ec "div"; ec "td"; ec "tr"; ec "table"].
     intros st. cbn [app]. rewrite !run_eo, run_app, I, !run_ec. reflexivity.
 Qed.
+Lemma mitems_std : forall l opened, wb (events Std (mitems_segs opened l)).
+Proof.
+  induction l as [|i r IH]; intros opened; [destruct opened; apply balanced_wb; reflexivity|].
+  destruct i as [cl|ts|g]; cbn [mitems_segs].
+  - rewrite events_cons, events_app. replace (seg_events Std (if opened then M [c "td"; o "td"] else M [o "table"; o "tr"; o "td"])) with (@nil ev) by (destruct opened; reflexivity).
+    cbn [app]. apply wb_app; [apply col_wb|apply IH].
+  - rewrite events_cons. intros st. rewrite raw_run. apply IH.
+  - rewrite events_app. apply wb_app; [apply group_wb|apply IH].
+Qed.
+Lemma mitems_mso : forall l opened st, run (ostack opened st) (events Mso (mitems_segs opened l)) = Some st.
+Proof.
+  induction l as [|i r IH]; intros opened st.
+  - destruct opened; [|reflexivity]. cbn [mitems_segs ostack]. change (events Mso [M [c "td"; c "tr"; c "table"]]) with [ec "td"; ec "tr"; ec "table"]. now rewrite !run_ec.
+  - destruct i as [cl|ts|g]; cbn [mitems_segs].
+    + rewrite events_cons, events_app. destruct opened; cbn [ostack].
+      * change (seg_events Mso (M [c "td"; o "td"])) with [ec "td"; eo "td"]. cbn [app]. rewrite run_ec, run_eo, run_app, (col_wb Mso cl). apply (IH true st).
+      * change (seg_events Mso (M [o "table"; o "tr"; o "td"])) with [eo "table"; eo "tr"; eo "td"]. cbn [app]. rewrite !run_eo, run_app, (col_wb Mso cl). apply (IH true st).
+    + rewrite events_cons, raw_run. apply IH.
+    + rewrite events_app, run_app, (group_wb Mso g). apply IH.
+Qed.
 Lemma children_wb v s : wb (events v (children_segs s)).
 Proof.
-  destruct s as [cs|gs]; cbn [children_segs]; [apply cols_wb|]. destruct gs as [|g gs]; [apply cols_wb|].
-  rewrite events_flat_map. apply wb_concat_map. intros x. apply group_wb.
+  destruct s as [cs|gs|ms]; cbn [children_segs]; [apply cols_wb| |].
+  - destruct gs as [|g gs]; [apply cols_wb|]. rewrite events_flat_map. apply wb_concat_map. intros x. apply group_wb.
+  - destruct v; [apply mitems_std|]. intros st. apply (mitems_mso ms false st).
 Qed.
 
 Lemma sec_events v s : events v (sec_segs s) =
@@ -844,8 +884,9 @@ Definition leaf_texts (v : view_kind) (k : leaf) : list bytes :=
 Definition col_texts v (cl : column) := flat_map (leaf_texts v) (snd cl).
 Definition item_texts v (i : item) := match i with CI cl => col_texts v cl | RI ts => raw_texts ts end.
 Definition cols_texts v (l : list item) := flat_map (item_texts v) l.
+Definition mitem_texts v (i : mitem) := match i with MC cl => col_texts v cl | MR ts => raw_texts ts | MG g => cols_texts v g end.
 Definition sec_texts v (s : section) :=
-  match s with Cols l => cols_texts v l | Groups gs => flat_map (cols_texts v) gs end.
+  match s with Cols l => cols_texts v l | Groups gs => flat_map (cols_texts v) gs | Mixed l => flat_map (mitem_texts v) l end.
 Definition witem_texts v (i : witem) := match i with WS s => sec_texts v (snd s) | WR ts => raw_texts ts end.
 Definition block_texts v (b : block) :=
   match b with
@@ -996,9 +1037,17 @@ Proof.
   rewrite app_nil_r. unfold group_inner. destruct (has_col l) eqn:H; [|now apply raws_only_txt].
   rewrite events_app, texts_app, items_txt, (raws_only_txt v _ (split_trail_raws l)), <- cols_texts_app, split_trail_app. reflexivity.
 Qed.
+Lemma mitems_txt v : forall l opened, texts (events v (mitems_segs opened l)) = flat_map (mitem_texts v) l.
+Proof.
+  induction l as [|i r IH]; intros opened; [destruct opened, v; reflexivity|].
+  destruct i as [cl|ts|g]; cbn [mitems_segs flat_map mitem_texts].
+  - rewrite silent_txt by (destruct opened; sil). rewrite events_app, texts_app, col_txt. f_equal. apply IH.
+  - rewrite raw_txt. f_equal. apply IH.
+  - rewrite events_app, texts_app, group_txt. f_equal. apply IH.
+Qed.
 Lemma children_txt v s : texts (events v (children_segs s)) = sec_texts v s.
 Proof.
-  destruct s as [cs|gs]; cbn [children_segs sec_texts]; [apply cols_txt|].
+  destruct s as [cs|gs|ms]; cbn [children_segs sec_texts]; [apply cols_txt| |apply mitems_txt].
   destruct gs as [|g gs]; [destruct v; reflexivity|].
   rewrite events_flat_map, texts_flat_map. apply flat_map_ext. intros x. apply group_txt.
 Qed.
